@@ -25,6 +25,7 @@ from hypothesis import strategies as st
 
 from vlib.core import Result, Unit
 from vlib import harness
+from vlib import wallsess
 
 ID = 'C44'
 LEVEL = 'exploration'
@@ -274,7 +275,7 @@ def check_clock(case, res):
 def _check_clock(case, res, nontrivial):
     model = ClockModel()
     now = datetime.datetime.now
-    with harness.Sess(budget=2000, video='cga') as s:
+    with wallsess.WallSess(budget=2000, video='cga') as s:
         clock = s.impl.clock
         for i, op in enumerate(case['ops']):
             kind = op['op']
@@ -369,7 +370,7 @@ def check_env(case, res):
     model = {}
     nontrivial = False
     try:
-        with harness.Sess(budget=2000, video='cga') as s:
+        with wallsess.WallSess(budget=2000, video='cga') as s:
             for i, op in enumerate(case['ops']):
                 desc = 'op %d %r of %r' % (i, op, case['ops'])
                 if op['op'] == 'set':
@@ -445,6 +446,16 @@ def check_env(case, res):
 
 def check_case(case):
     res = Result()
+    wallsess.reset()
+    _dispatch(case, res)
+    if wallsess.hit():
+        res = Result()
+        res.inconclusive = True
+        res.label('case-wall-limit')
+    return res
+
+
+def _dispatch(case, res):
     if case['u'] == 'clock':
         check_clock(case, res)
     elif case['u'] == 'env':
